@@ -24,8 +24,8 @@ def run (feats : Features) (ty : String) (fmt : Option Format) (v : String) (buf
     let radix := match fmt with | some f => f.mantissaRadix | none => 10
     let reqSign := match fmt with | some f => f.requiredMantissaSign | none => false
     let len :=
-      if facade then bufferSizeConst feats t radix + 1
-      else if buflen = "-" then bufferSizeConst feats t radix else buflen.toNat?.getD 0
+      if facade then bufferSizeConstFmt feats t radix reqSign + 1
+      else if buflen = "-" then bufferSizeConstFmt feats t radix reqSign else buflen.toNat?.getD 0
     let r := writeInt feats t radix reqSign fmt.isSome x (List.replicate len 170)
     some (if facade then (match r with | .ok (buf, n) => s!"ok {hexBytes (buf.take n)}" | _ => render 170 r)
           else render 170 r)
